@@ -84,3 +84,19 @@ Proof.
   intros cfg t0 evs Hsel. destruct (TC_run evs (init cfg t0) Hsel (Cok_init cfg t0) (TC_init cfg t0)) as [Hp|[HC HT]]; [left; exact Hp|right].
   apply c04_dump_ok; [exact (TC_SW _ _ _ HT)|exact (proj2 (proj2 (proj2 (proj2 (proj2 HT)))))].
 Qed.
+
+(* ---- what else holds of every reachable state ------------------------------------------------------------------------------------------------------------ *)
+Lemma tree_consistent : forall cfg t0 evs, selectors_in_range (init cfg t0) evs ->
+  let s := fst (run (init cfg t0) evs) in
+  panicked (snd (run (init cfg t0) evs)) \/ (KW s /\ ID s /\ EC [] s /\ QPs s /\ IPs s /\ NQ s).
+Proof.
+  intros cfg t0 evs Hsel. cbv zeta. destruct (TC_run evs (init cfg t0) Hsel (Cok_init cfg t0) (TC_init cfg t0)) as [Hp|[HC HT]]; [left; exact Hp|right].
+  pose proof (IPs_of_TC _ _ HT) as HI. destruct HT as [_ [A [B [C [D E]]]]]. apply IDs_nil in B. auto 7.
+Qed.
+
+Lemma assign_next_finds_queued : forall w s, NoDup (map fst (s_invs s)) -> QPs s ->
+  is_queued s (mkI (w_sk w) []) = true -> snd (assign_next_queued_task w s) = true.
+Proof.
+  intros w s Hnd HQ Hq. destruct (snd (assign_next_queued_task w s)) eqn:E; [reflexivity|].
+  rewrite (assign_next_nothing_queued w s Hnd HQ E) in Hq. discriminate.
+Qed.
